@@ -1,7 +1,7 @@
 (* C09 — Jailed validators have no power; unjail and tombstone rules hold. Statements only. *)
 From Coq Require Import List ZArith NArith Bool.
 From PM Require Import Base.Bytes Store.KV Store.MergeProofs Num.IntModel Num.DecModel Num.DecProofs
-  App.Model App.BankProofs App.TxProofs App.KeyProofs App.PosProofs App.IndexProofs App.TombProofs App.UpdateProofs App.Examples App.Invariants.
+  App.Model App.BankProofs App.TxProofs App.KeyProofs App.PosProofs App.IndexProofs App.TombProofs App.UpdateProofs App.KeyTypes App.KeyTypesMore App.Examples App.Invariants.
 Import ListNotations.
 Local Open Scope Z_scope.
 
@@ -37,6 +37,13 @@ Proof. exact (tombstoned_forever ops s s' a). Qed.
 Theorem C09_tombstoned_never_regains_power ops s s' a : tomb_ok s -> idx_sound s -> tombed (sinfo s) a ->
   run ops s = Some s' -> forall k, aget (powidx s') k <> Some a.
 Proof. exact (tombstoned_never_indexed ops s s' a). Qed.
+(* the same over every history run under consensus parameters that admit ed25519 validator keys only *)
+Theorem C09_tombstoned_forever_under_key_restriction r ops s s' a : tomb_ok s -> tombed (sinfo s) a -> run_cp r ops s = Some s' ->
+  tombed (sinfo s') a /\ forall v, get_val s' a = Some v -> v_jailed v = true.
+Proof. exact (tombstoned_forever_cp r ops s s' a). Qed.
+Theorem C09_tombstoned_never_regains_power_under_key_restriction r ops s s' a : tomb_ok s -> idx_sound s -> tombed (sinfo s) a ->
+  run_cp r ops s = Some s' -> forall k, aget (powidx s') k <> Some a.
+Proof. exact (tombstoned_never_indexed_cp r ops s s' a). Qed.
 Theorem C09_genesis_tomb_ok s0 gvals dao s ups : tomb_ok s0 -> (forall a, ~ tombed (sinfo s0) a) ->
   init_chain s0 gvals dao = Some (s, ups) -> tomb_ok s.
 Proof. exact (init_chain_tomb s0 gvals dao s ups). Qed.
@@ -61,6 +68,7 @@ Proof. vm_compute. repeat split; try reflexivity. intros s'' H; discriminate H. 
 Print Assumptions C09_unjail_preconditions.
 Print Assumptions C09_double_sign_tombstones.
 Print Assumptions C09_tombstoned_forever.
+Print Assumptions C09_tombstoned_never_regains_power_under_key_restriction.
 Print Assumptions C09_tombstoned_never_regains_power.
 Print Assumptions C09_jailed_never_in_index_all_histories.
 Print Assumptions C09_jailed_absent_from_the_reported_set.
